@@ -65,8 +65,12 @@ def readLoose (text : List Char) : Option (Script × List (Option Handler) × Li
         if skipNl rest ≠ [] then none else
         let toks := chunks.map fun c => lex (joinLines c)
         let names := chunks.map fun c => match c with | l :: _ => firstWord ((l.dropWhile (· == ' ')).dropWhile isIdChar) | [] => []
-        let allToks := toks.flatMap fun t => match t with | some ts => .nl :: ts | none => []
-        let props := s.props ++ declared "instance" allToks
+        -- `instance` lines are read line by line, so that a handler the lexer rejects elsewhere still declares its variables
+        let instLines := (chunks.flatMap id).filter fun l => lowerName (firstWord l) == "instance".toList
+        let inst := instLines.flatMap fun l => match lex l with
+          | some (_ :: ts) => (match pNames ts with | some (ns, _) => ns | none => [])
+          | _ => []
+        let props := s.props ++ inst
         let se : ScriptEnv := { props, globals := s.globals, handlers := names }
         let hs := toks.map fun t => t.bind fun ts =>
           (pHandler se (4 * ts.length + 16) ts).bind fun (h, rest) => if skipNl rest = [] then some h else none
